@@ -22,8 +22,8 @@ counter-examples `eval_wrong_*` below (each is replayed on the real `c2m` and on
 * `eval_fixed_meets_c11` — with all candidate repairs `fixes/C09-if-*.patch` the side condition
   reduces to "every constant has a C11 type": this is the full statement for the repaired code;
 * `eval_meets_c11_of_repaired` — the full statement for the checked tree, conditional on the single
-  definition `appliedFixes` having been switched to `allFixes` (vacuous today, see
-  `appliedFixes_today`).
+  definition `appliedFixes` having been switched to `allFixes` (vacuous today: `appliedFixes` is
+  `noFixes`).
 
 ## macro replacement
 The expander `expandList` is the executable C11 specification (not a model of c2mir's push-back
@@ -59,8 +59,9 @@ theorem eval_meets_c11_of_repaired (h : appliedFixes = allFixes) (e : Expr) (hl 
     (hdef : c11Eval e ≠ .undef) : c2mEval e = c11Eval e := by
   unfold c2mEval; rw [h]; exact eval_fixed_meets_c11 e hl hdef
 
-/-- today the hypothesis of `eval_meets_c11_of_repaired` does not hold -/
-theorem appliedFixes_today : appliedFixes = noFixes := rfl
+-- today `appliedFixes` is `noFixes`, so the hypothesis of `eval_meets_c11_of_repaired` is false and the
+-- theorem is vacuous; after the repairs are committed set `appliedFixes := allFixes` in Model/PPExpr.lean
+-- (the correspondence check tells which value matches the real evaluator) and `h` becomes `rfl`.
 
 /-- type soundness of the C11 evaluator: the flag of a computed value is the static type -/
 theorem c11Eval_type_sound (e : Expr) (v : Val) (h : c11Eval e = .val v) : v.uns = isUns e :=
